@@ -100,20 +100,26 @@ def parse_opts(words):
 
 
 def labelled(text_lines, default_props, item, kind, asm, default_tag=None):
-    """turn spec/loop/ghost lines into (line, meta) with forward-applied labels."""
-    out = []
-    cur_tag = default_tag
-    cur_props = list(default_props)
-    for l in text_lines:
+    """turn spec/loop/ghost lines into (line, meta). A label `//# PROPS name` closes a clause: it
+    applies to its own line and to the preceding lines back to the previous label (clauses may
+    span several lines and carry their label on the last one). Lines after the last label of a
+    block belong to the function's default properties."""
+    metas = [None] * len(text_lines)
+    start = 0
+    for k, l in enumerate(text_lines):
         m = LABEL_RE.search(l)
         if m:
-            cur_props = m.group(1).split(',')
-            cur_tag = m.group(2)
-            if cur_tag in asm.labels and asm.labels[cur_tag]['item'] != item:
-                raise TemplateError("label %s used twice" % cur_tag)
-            asm.labels[cur_tag] = {'props': cur_props, 'item': item, 'kind': kind}
-        out.append((l, {'item': item, 'origin': kind, 'tag': cur_tag, 'props': cur_props}))
-    return out
+            props = m.group(1).split(',')
+            tag = m.group(2)
+            if tag in asm.labels and asm.labels[tag]['item'] != item:
+                raise TemplateError("label %s used twice" % tag)
+            asm.labels[tag] = {'props': props, 'item': item, 'kind': kind}
+            mt = {'item': item, 'origin': kind, 'tag': tag, 'props': props}
+            for q in range(start, k + 1):
+                metas[q] = mt
+            start = k + 1
+    dflt = {'item': item, 'origin': kind, 'tag': default_tag, 'props': list(default_props)}
+    return [(l, metas[k] or dflt) for k, l in enumerate(text_lines)]
 
 
 class FnSpec:
@@ -308,20 +314,72 @@ def rewrite_guard(text, rw, item, asm):
     if not m:
         raise TemplateError("guard rewrite needs `PAT if GUARD => {`: %r" % head)
     pat, guard = m.group(1), m.group(2)
-    cnt = text.count(head)
-    if cnt != 1:
-        raise LostAnchor("guarded arm in %s occurs %d times: %r" % (item, cnt, head[:70]))
-    p = text.index(head)
+    hre = re.compile(r'\s+'.join(re.escape(tok) for tok in head.split()))
+    hits = list(hre.finditer(text))
+    if len(hits) != 1:
+        raise LostAnchor("guarded arm in %s occurs %d times: %r" % (item, len(hits), head[:70]))
+    p = hits[0].start()
     mask = code_mask(text)
-    ob = p + len(head) - 1
+    ob = hits[0].end() - 1
     cb = match_close(mask, ob)
-    # what follows must be the wildcard arm
+    # what follows must be the wildcard arm, possibly after arms whose head constructor differs
+    # from PAT's (then they cannot match a value that matches PAT, and falling through to `_`
+    # is what Rust does when the guard is false)
+    def head_ctor(ptext):
+        m2 = re.match(r'\s*\(?\s*([A-Za-z_][A-Za-z0-9_:]*)', ptext)
+        return m2.group(1) if m2 else None
+    my_ctor = head_ctor(pat)
     q = cb + 1
-    while q < len(mask) and mask[q] in ' \n\t,':
-        q += 1
-    mm = re.match(r'_\s*=>\s*', mask[q:])
-    if not mm:
-        raise LostAnchor("guarded arm in %s is not directly followed by the `_` arm" % item)
+    skipped = []
+    while True:
+        while q < len(mask) and mask[q] in ' \n\t,':
+            q += 1
+        mm = re.match(r'_\s*=>\s*', mask[q:])
+        if mm:
+            break
+        # another arm: find its `=>` at depth 0
+        d = 0
+        k2 = q
+        arrow = None
+        while k2 < len(mask):
+            ch = mask[k2]
+            if ch in '({[':
+                d += 1
+            elif ch in ')}]':
+                if d == 0:
+                    break
+                d -= 1
+            elif mask.startswith('=>', k2) and d == 0:
+                arrow = k2
+                break
+            k2 += 1
+        if arrow is None:
+            raise LostAnchor("guarded arm in %s is not followed by a `_` arm" % item)
+        other = text[q:arrow]
+        oc = head_ctor(other)
+        if ' if ' in mask[q:arrow] or oc is None or my_ctor is None or oc == my_ctor:
+            raise LostAnchor("guarded arm in %s: cannot show that the arm `%s` is disjoint" % (item, ' '.join(other.split())[:60]))
+        skipped.append(' '.join(other.split())[:80])
+        # skip the arm body
+        k3 = arrow + 2
+        while mask[k3] in ' \n\t':
+            k3 += 1
+        if mask[k3] == '{':
+            q = match_close(mask, k3) + 1
+        else:
+            d = 0
+            while k3 < len(mask):
+                ch = mask[k3]
+                if ch in '({[':
+                    d += 1
+                elif ch in ')}]':
+                    if d == 0:
+                        break
+                    d -= 1
+                elif ch == ',' and d == 0:
+                    break
+                k3 += 1
+            q = k3
     es = q + mm.end()
     # the `_` arm expression runs to the brace closing the match
     depth = 0
@@ -342,6 +400,7 @@ def rewrite_guard(text, rw, item, asm):
     new = '%s => if %s %s else { %s }' % (pat, guard, body, expr)
     asm.log['rewrites'].append({'item': item, 'kind': 'rule:R-guard', 'count': 1, 'old': head,
                                 'new': '%s => if %s { .. } else { <text of the `_` arm> }' % (pat, guard),
+                                'skipped_disjoint_arms': skipped,
                                 'why': rw['why'] or 'Verus limitation with &mut calls in guarded arms; falls through to `_` exactly like the guard'})
     return text[:p] + new + text[cb + 1:]
 
